@@ -55,16 +55,34 @@ fn run_case<G: AffineRepr>(env: &Env<G>, c: &Case) -> CaseOut {
             cfg = crate::gen::GenCfg { m: c.n, q: 0, ..crate::gen::GenCfg::simple(0, 0) };
         }
         let prog = gen_program(c.seed, &cfg);
-        let po = prove::<G>(env, &prog, &[], &env.bp, c.seed);
-        let m = &po.st.model;
-        for (j, v) in po.vs.iter().enumerate() {
-            o.evals += 1;
-            let want = (dbl_add(&env.pc.B, &m.actual.v[j]) + dbl_add(&env.pc.B_blinding, &m.vb[j])).into_affine();
-            if *v != want {
-                o.violate("prover-commit", format!("Prover::commit returned a point that is not v*B + r*B_blinding for commitment {}", j), json!({"program": prog, "index": j}));
-            } else {
-                o.count("prover-commit == v*B + r*B~", 1);
+        // the prover is driven with the default bases and with caller-chosen ones (random pair,
+        // the two default bases swapped, value base = blinding base)
+        let rs: Vec<F<G>> = rand_scalars::<G>(c.seed ^ 1, 2);
+        let fams: Vec<(&str, PedersenGens<G>)> = vec![
+            ("default", env.pc),
+            ("random pair", PedersenGens { B: dbl_add(&env.pc.B, &rs[0]).into_affine(), B_blinding: dbl_add(&env.pc.B, &rs[1]).into_affine() }),
+            ("swapped", PedersenGens { B: env.pc.B_blinding, B_blinding: env.pc.B }),
+            ("B = B_blinding", PedersenGens { B: env.pc.B_blinding, B_blinding: env.pc.B_blinding }),
+        ];
+        let mut po = prove::<G>(env, &prog, &[], &env.bp, c.seed);
+        for (fi, (fname, pc)) in fams.iter().enumerate() {
+            if fi > 0 {
+                if c.n >= 100 && fi > 1 {
+                    continue;
+                }
+                po = crate::interp::cur::prove_program::<G>(&prog, &[], pc, &env.bp, c.seed);
             }
+            let m = &po.st.model;
+            for (j, v) in po.vs.iter().enumerate() {
+                o.evals += 1;
+                let want = (dbl_add(&pc.B, &m.actual.v[j]) + dbl_add(&pc.B_blinding, &m.vb[j])).into_affine();
+                if *v != want {
+                    o.violate("prover-commit", format!("Prover::commit (bases: {}) returned a point that is not v*B + r*B_blinding for commitment {}", fname, j), json!({"program": prog, "index": j, "bases": fname}));
+                } else {
+                    o.count(&format!("prover-commit == v*B + r*B~ ({})", fname), 1);
+                }
+            }
+            o.sig(format!("{}|prover|{}|m={}", env.curve, fname, po.vs.len()));
         }
         o.sig(format!("{}|prover|m={}", env.curve, po.vs.len()));
         return o;
